@@ -304,6 +304,8 @@ class Interp:
                 return getattr(base, e.attr)
             if self.native_types and isinstance(base, self.native_types):
                 return _guard(getattr, base, e.attr)
+            if isinstance(base, types.ModuleType):
+                return _guard(getattr, base, e.attr)
             if e.attr in ("real", "imag", "numerator", "denominator", "__name__", "__class__", "__mro__", "__bases__", "__qualname__", "__module__") and not isinstance(base, dict):
                 return _guard(getattr, base, e.attr)
             if isinstance(base, dict) and e.attr in base:
@@ -417,6 +419,10 @@ class Interp:
             v = self.ev(e.value, env, mod)
             self._bind(e.target, v, env)
             return v
+        if isinstance(e, ast.YieldFrom):
+            vals = _guard(list, self.ev(e.value, env, mod))
+            env.setdefault("__yielded__", []).extend(vals)
+            return None
         if isinstance(e, ast.Yield):
             # generator functions are evaluated eagerly: the yielded values are collected in order
             v = self.ev(e.value, env, mod) if e.value is not None else None
